@@ -287,6 +287,13 @@ def merge(results):
             for kk, vv in v.items():
                 d[kk] = d.get(kk, 0) + vv
         for k, v in (r.get("extra") or {}).items():
+            if k == "reach_detail":
+                d = out["extra"].setdefault(k, {})
+                for a, hv in v.items():
+                    e = d.setdefault(a, {"hit": set(), "body": set()})
+                    e["hit"].update(hv["hit"])
+                    e["body"].update(hv["body"])
+                continue
             if isinstance(v, (int, float)) and not isinstance(v, bool):
                 if k.startswith("max_"):
                     out["extra"][k] = max(out["extra"].get(k, v), v)
@@ -357,6 +364,11 @@ def finish(pid, tier, seed, merged, spec, wall_s, inconclusive_reasons):
             json.dump(v, f, indent=1)
         replay_paths.append(p)
 
+    # reach: union over the shards of the lines each shard executed (offsets relative to the def line, robust against edits above)
+    rd = merged["extra"].pop("reach_detail", None)
+    if rd:
+        merged["extra"]["reach"] = {a: f"{len(v['hit'])}/{len(v['body'])}" for a, v in rd.items()}
+        merged["extra"]["reach_missed_line_offsets"] = {a: sorted(v["body"] - v["hit"]) for a, v in rd.items() if v["body"] - v["hit"]}
     nd = len(merged["digests"])
     ev = {
         "property_id": pid, "tier": tier, "seed": int(seed), "level": "exploration",
@@ -372,7 +384,8 @@ def finish(pid, tier, seed, merged, spec, wall_s, inconclusive_reasons):
             "fp_events": merged["extra"].get("fp_events", {}),
             "shards": merged["shards"],
             "known_findings": [{"key": v["key"], "what": v["what"][:200]} for v, _ in kn],
-            "other": {k: v for k, v in merged["extra"].items() if k not in ("reach", "reach_functions", "fp_events")},
+            "reach_missed_line_offsets": merged["extra"].get("reach_missed_line_offsets", {}),
+            "other": {k: v for k, v in merged["extra"].items() if k not in ("reach", "reach_functions", "fp_events", "reach_missed_line_offsets")},
             "notes": merged["notes"],
             "inconclusive_reasons": reasons,
             "repo": REPO,
